@@ -207,8 +207,32 @@ class NixSourceCode:
                 # An unresolvable `with` environment is opaque, not fatal.
                 scopes = scopes_for_owner(target, strict=False)
 
+            def inherit(expr, chain):
+                """Hand the collected scope chain to *expr* as inherited context."""
+                if chain:
+                    set_resolution_context(expr, chain)
+
             def resolve_nested(expr, *, scopes=scopes):
-                return resolve_from_expr(expr, scopes=scopes)
+                inherit(expr, scopes)
+                # The nested level adds its own let layers / with environment.
+                return resolve_from_expr(expr, scopes=None)
+
+            def call_argument(call):
+                argument = call.argument
+                while isinstance(argument, Parenthesis):
+                    argument = argument.value
+                callee = call.name
+                while isinstance(callee, Parenthesis):
+                    callee = callee.value
+                # The argument of a directly applied lambda lives outside it.
+                chain = () if isinstance(callee, FunctionDefinition) else scopes
+                if isinstance(argument, Identifier) and scopes:
+                    set_resolution_context(argument, scopes)
+                    argument = argument.value
+                if isinstance(argument, AttributeSet):
+                    inherit(argument, chain)
+                    return argument
+                return None
 
             match target:
                 case Assertion():
@@ -220,13 +244,8 @@ class NixSourceCode:
                 case FunctionDefinition():
                     output = target.output
                     if isinstance(output, FunctionCall):
-                        argument = output.argument
-                        while isinstance(argument, Parenthesis):
-                            argument = argument.value
-                        if isinstance(argument, Identifier) and scopes:
-                            set_resolution_context(argument, scopes)
-                            argument = argument.value
-                        if isinstance(argument, AttributeSet):
+                        argument = call_argument(output)
+                        if argument is not None:
                             return argument
                     if output is None:
                         raise ValueError(
@@ -239,10 +258,7 @@ class NixSourceCode:
                             "Top-level expression must be an attribute set"
                         ) from exc
                 case WithStatement():
-                    body_scopes = scopes_for_owner(target, strict=False) or scopes
-                    if body_scopes:
-                        set_resolution_context(target.body, body_scopes)
-                    return resolve_from_expr(target.body, scopes=body_scopes)
+                    return resolve_nested(target.body, scopes=scopes)
                 case Identifier():
                     identifier_scopes = scopes or scopes_for_owner(target)
                     if identifier_scopes:
@@ -254,13 +270,8 @@ class NixSourceCode:
                 case AttributeSet():
                     return target
                 case FunctionCall():
-                    argument = target.argument
-                    while isinstance(argument, Parenthesis):
-                        argument = argument.value
-                    if isinstance(argument, Identifier) and scopes:
-                        set_resolution_context(argument, scopes)
-                        argument = argument.value
-                    if isinstance(argument, AttributeSet):
+                    argument = call_argument(target)
+                    if argument is not None:
                         return argument
             raise ValueError("Top-level expression must be an attribute set")
 
